@@ -59,6 +59,8 @@ def base_scenarios():
     out.append(('unregsig_vs_register_other', [(s1, 0), (s2, 0)], [(2, s1, 7)], [(4, s1, 0), (2, s2, 8), (1, s2, 0)]))
     # removing the OLDEST of three keeps the order of the other two
     out.append(('unreg_first_of_three', [(s1, 0)], [(2, s1, 1), (2, s1, 2), (2, s1, 3)], [(3, 0, 0), (1, s1, 0)]))
+    # two removals of different actions overlapping, then a delivery: a removal that returned stays removed (no lost update)
+    out.append(('two_unregisters', [(s1, 0)], [(2, s1, 1), (2, s1, 2), (2, s1, 3)], [(3, 0, 0), (3, 1, 0), (1, s1, 0)]))
     out.append(('other_signal', [(s1, 0), (s2, 0)], [(2, s1, 1), (2, s2, 2)], [(1, s1, 0), (3, 1, 0), (1, s2, 0)]))
     return out
 
